@@ -338,10 +338,16 @@ def case_multiobs(cfg):
             pins[name], vals[name], eqs[name] = None, None, {}
             continue
         pin, val, eq = _obs_tables(n, cfg.get("din", 1), cfg.get("dout", 1), cfg.get("eqk", 0))
-        pin = pin + 10000.0 * j
+        off = np.float32(10000.0 * (j + 1))      # every table of every network is distinct
+        pin, val, eq = pin + off, val + off, {k: v + off for k, v in eq.items()}
         pins[name], vals[name] = jnp.asarray(pin), jnp.asarray(val)
         eqs[name] = {k: jnp.asarray(v) for k, v in eq.items()}
         regs[name] = (Registry(list(pin)), Registry(list(val)), {k: Registry(list(v)) for k, v in eq.items()})
+    # the three user dictionaries may list the networks in different (insertion) orders
+    rot = cfg.get("rot", 0)
+    names = list(pins)
+    vals = {k: vals[k] for k in names[::-1]} if rot & 1 else vals
+    eqs = {k: eqs[k] for k in names[1:] + names[:1]} if rot & 2 else eqs
     try:
         g = DataGeneratorObservationsMultiPINNs(cfg["b"], pins, vals, observed_eq_params_dict=eqs,
                                                 key=jax.random.PRNGKey(cfg["seed"]))
